@@ -164,7 +164,7 @@ func hC18Dispatch() {
 	cfg := &pipeCfg{maxMsg: 16, kind: fkUnary, clientCodec: CodecProto, svcCodecs: []string{CodecJSON}}
 	cfg.svcProtos = []Protocol{pipeProtocols[verifChoose("target", 4)]}
 	// rejection classes (one per run)
-	class := verifChoose("reject", 13)
+	class := verifChoose("reject", 14)
 	if class == 12 {
 		if cfg.svcProtos[0] == ProtocolREST {
 			return
@@ -249,6 +249,12 @@ func hC18Dispatch() {
 			return
 		}
 		p.body.data = []byte{0, 0, 0, 1, 0}
+	case 13: // the Connect GET marker (?connect=v1) on a request that is not a GET and carries no Connect-Protocol-Version: unclassifiable
+		if cfg.client != cfConnectUnary {
+			return
+		}
+		req.Header.Del("Connect-Protocol-Version")
+		req.URL.RawQuery = "connect=v1"
 	case 12: // bidi method over HTTP/1.x (any streaming client form)
 		if cfg.client == cfConnectUnary {
 			return
